@@ -29,7 +29,7 @@ VALUE = st.recursive(LEAF, lambda ch: st.one_of(st.lists(ch, max_size=3), st.dic
 
 MAP_OPS = ['setitem', 'setitem', 'delitem', 'setattr', 'delattr', 'update', 'update_kw', 'setdefault', 'pop', 'pop_default', 'clear',
            'set_child', 'remove_child', 'rename_child', 'rename_child']
-LIST_OPS = ['setitem', 'setitem', 'delitem', 'append', 'append', 'insert', 'insert', 'extend', 'remove', 'pop', 'pop', 'pop_noarg', 'clear',
+LIST_OPS = ['setitem', 'setitem', 'delitem', 'append', 'append', 'insert', 'insert', 'extend', 'extend_self', 'remove', 'pop', 'pop', 'pop_noarg', 'clear',
             'set_child', 'remove_child']
 
 
@@ -166,6 +166,13 @@ def apply_model(m, op):
             elif name == 'extend':
                 m.extend(vs)
                 return name, (vs,)
+            elif name == 'extend_self':
+                # the list extended by itself (scalars only, so that no container ends up at two places)
+                if any(isinstance(x, (list, dict)) for x in m):
+                    m.extend(vs)
+                    return 'extend', (vs,)
+                m.extend(list(m))
+                return name, ()
             elif name == 'remove':
                 target = m[op['pick'] % n] if (op['existing'] and n) else v
                 m.remove(target)
@@ -231,6 +238,13 @@ def apply_node(node, name, args):
             node.insert(args[0], args[1])
         elif name == 'extend':
             node.extend(args[0])
+        elif name == 'extend_self':
+            from ..budget import StepBudget, StepBudgetExceeded
+            try:
+                with StepBudget(200000):
+                    node.extend(node)
+            except StepBudgetExceeded:
+                raise Violation('C17: extending a list by itself does not terminate (more than 200000 line events inside awesomeyaml)')
         elif name == 'remove':
             node.remove(args[0])
         elif name == 'pop':
